@@ -22,4 +22,26 @@ var round8Explanations = map[string]string{
 	"C19": " (R9) no map update or delete in pkg/filter/stream hits a map reached from RouteRule().PerFilterConfig() or a ReadPerRouteConfig parameter.",
 }
 
-const genericExplanation = " (G1-G3, generic, over the packages of this property) no address of a go-1.18 loop-header variable escapes its iteration; every sync mutex acquired in a function is released on every path to its return, directly or by a defer registered on that path (read and write acquisitions distinct, wrapper table frozen); a struct field passed to sync/atomic anywhere in scope is never read or written plainly outside construction (24 frozen exceptions, keyed type.field@function)."
+const genericExplanation = " (G1-G3, generic, over the packages of this property) no address of a go-1.18 loop-header variable escapes its iteration; every sync mutex acquired in a function is released on every path to its return, directly or by a defer registered on that path (read and write acquisitions distinct, wrapper table frozen); a struct field passed to sync/atomic anywhere in scope is never read or written plainly outside construction (24 frozen exceptions, keyed type.field@function); (G2 across calls) no synchronous call into a function that acquires a mutex the caller holds; (G4) storage released to a pool is not returned or stored by the releasing function; (G5) no append onto a loop-invariant slice inside a loop when the result is kept."
+
+// Clauses added in round 9.
+var round9Explanations = map[string]string{
+	"C01": " (R10) in (*http2.HeaderMap).Clone every stored value list is a full copy (make(len(src))+copy or append(nil, src...)) of the list the loop over h.H yields. (R11) every codec.NewReader of the tars codec receives a slice whose low bound is the prefix width the encoders reserve; getStreamType's decision is read off its CFG for head types 0..13.",
+	"C02": " (R16) in the M* HTTP/2 connection methods every HPACK-encoding call and the HEADERS/CONTINUATION writes that follow run under one hold of mu/hmu.",
+	"C03": " (R11) a try ended by UpstreamGlobalTimeout never reaches a positive retry decision: onUpstreamReset guards the retry call, or the doRetryCheck table cannot answer true for it.",
+	"C06": " (R6) in edfScheduler.NextAndPush Peek() and Fix/Push run under one hold of the scheduler lock (no explicit Unlock between them).",
+	"C07": " (B2d) ctxManager.Get() is executed between any two Decode calls of the Dispatch loops and its result is the context Decode receives; empty-buffer guards accepted in either polarity.",
+	"C08": " (B10) every store of a value derived from a peer Setting's Val in the functions the M* types hand to ForeachSetting lies on the err==nil side of Setting.Valid().",
+	"C09": " (R9) each value returned by NewStream/newClientStream is a fresh allocation, a per-request slot whose embedded stream is overwritten as a whole, or such a slot on a path where a pointer field of it was tested nil.",
+	"C10": " (PAIR) fresh-stream-per-try, see C09.R9: the stream of a retry must run its own listeners, which release the requests slot and the gauges.",
+	"C11": " (O13) in transferFindListen every path from the lookup by the connection's own address to a nil result passes a lookup of the IPv4 wildcard and one of the IPv6 wildcard.",
+	"C12": " (R13) the C04.R5 view rule: a route list read under vh.mutex is not returned, stored or indexed after the lock is released.",
+	"C13": " (R13) every CertPool.AddCert/AppendCertsFromPEM under pkg/mtls writes a pool created by x509.NewCertPool() in the same function; GetX509Pool appends only what derives from its CA parameter.",
+	"C14": " (R5) on every path from the filter invocation to a return feasible under ReMatchRoute/ReChooseHost, the cursor equals the absolute position of the filter (linear forms; a re-sliced view adds its low bound).",
+	"C15": " (R10) each path through the Range callback of initIndex increments the captured position counter exactly once.",
+	"C16": " (R3) stopCheck only from stop() or on an element of findNewAndDeleteHost's deleted hosts, startCheck only from start() or on an element of its new hosts.",
+	"C17": " (R13) retryPolicyImpl.{retryOn,retryTimeout,numRetries,statusCodes} are stored from the RetryPolicy fields of the same name as they are.",
+	"C18": " (W11) for every HEADERS/CONTINUATION write in the splitting loops, NOT(loop condition with back-edge values) implies the END_HEADERS flag, proved with linear forms and len>=0. (W12) see C02.R16. (W13) see C08.B10.",
+	"C19": " (R10) every json.Unmarshal into a local pkg/config/v2 value in pkg/mosn, pkg/configmanager, pkg/config/v2 targets a value with no earlier store.",
+	"C20": " (G4) the bytes DumpJSON and the other encoders return are not storage given back to a pool; R1 follows a package helper that encodes its parameter.",
+}
